@@ -1342,7 +1342,15 @@ func (env *Env) call(n *ast.CallExpr) TV {
 				// interface methods ("File.Mkdir") are part of the backend call log;
 				// calls of /repo functions and function parameters are counted per
 				// invocation of the function under verification ($c.)
-				if ifaceMethodRe.MatchString(s) {
+				if strings.HasPrefix(s, "local:") {
+					// per-invocation counter of an interface method whose name
+					// looks like a backend method (ncalls("local:ReadCloser.Close"))
+					name = "$c." + strings.TrimPrefix(s, "local:")
+					if c.countersUsed == nil {
+						c.countersUsed = map[string]bool{}
+					}
+					c.countersUsed[name] = true
+				} else if ifaceMethodRe.MatchString(s) {
 					name = "$n." + s
 				} else {
 					name = "$c." + s
